@@ -102,6 +102,8 @@ struct LruDriver {
     }
     template <bool M = IsMap> typename std::enable_if<M>::type do_put(int k, int v) { c->put(Conv<K>::make(k), Conv<V>::make(v)); }
     template <bool M = IsMap> typename std::enable_if<!M>::type do_put(int k, int) { c->put(Conv<K>::make(k)); }
+    template <bool M = IsMap> typename std::enable_if<M>::type put_from_get(int k, int k2) { c->put(Conv<K>::make(k), c->get(Conv<K>::make(k2))); }
+    template <bool M = IsMap> typename std::enable_if<!M>::type put_from_get(int, int) {}
     template <bool M = IsMap> typename std::enable_if<M>::type do_pop() {
         auto kv = c->pop();
         int k = Conv<K>::get(kv.first), v = Conv<V>::get(kv.second);
@@ -135,7 +137,20 @@ struct LruDriver {
         auto it = mfind(k);
         bool present = it != model.end();
         unsigned r = (unsigned)rng.below(100);
-        if (r < 30) {
+        if (IsMap && r < 4 && !model.empty()) {
+            // put() with a value that is a reference into the cache itself (as returned by get())
+            int k2 = rng.coin() && present ? k : model.begin()->first;   // source entry: same key or the most recent one
+            auto src = mfind(k2);
+            int v = src->second;
+            put_from_get(k, k2);
+            trace.push_back("put(" + std::to_string(k) + ", get(" + std::to_string(k2) + "))");
+            auto dst = mfind(k);
+            if (dst != model.end()) model.erase(dst);
+            model.push_front({ k, v });
+            check("put(k, get(k2))");
+            verif::count(k == k2 ? "lru_put_value_aliasing_own_entry" : "lru_put_value_from_other_entry");
+        }
+        else if (r < 30) {
             int v = next_val++;
             do_put(k, v);
             trace.push_back("put(" + std::to_string(k) + (IsMap ? "," + std::to_string(v) : std::string()) + ")");
